@@ -296,6 +296,8 @@ def write_replay(pid, payload):
     path = os.path.join(REPLAY_DIR, f"{pid}-{os.getpid()}-{_replay_counter[0]}.json")
     payload = dict(payload)
     payload["property"] = pid
+    if os.environ.get("VERIF_EXTRA_VALIDATION") == "1":
+        payload["extra_validation"] = True  # the task ran with Config(extra_validation=True); --replay restores it
     payload["replay_cmd"] = f"bin/check {pid} --replay {path}"
     with open(path, "w") as f:
         json.dump(payload, f, indent=1, default=_json_default)
@@ -508,6 +510,18 @@ def pmap_staged(fn, first, rest, **kw):
         p.d["inconclusive"].append(f"{len(list(rest))} symbolic tasks skipped: a violation was already reproduced on the real code by the concrete stage")
         return out + [p.d]
     return out + pmap(fn, rest, **kw)
+
+
+def with_extra_validation(fn, *args):
+    """Run a task with every filter / model configured with Config(extra_validation=True) (a documented option the
+    corpus otherwise leaves at its default).  Tasks run in their own forked process, so the switch does not leak."""
+    os.environ["VERIF_EXTRA_VALIDATION"] = "1"
+    d = fn(*args)
+    for k in ("violations",):
+        for v in d.get(k, []):
+            if isinstance(v, dict) and "key" in v:
+                v["key"] = v["key"] + "/extra_validation"
+    return d
 
 
 @contextlib.contextmanager
